@@ -155,6 +155,8 @@ func (p *printer) comb(c *Comb) string {
 		// the result of a function is written without the outer parentheses
 		if strings.HasPrefix(t, "(") && strings.HasSuffix(t, ")") {
 			t = t[1 : len(t)-1]
+		} else if strings.HasPrefix(t, "%(") && strings.HasSuffix(t, ")") { // a bare result: = %Vector int
+			t = "%" + t[2:len(t)-1]
 		}
 		sb.WriteString(t)
 	} else {
